@@ -15,7 +15,7 @@ import (
 // a tape-chosen moment; all on the simulated clock.
 
 func init() {
-	Register(&World{Name: "batch", Props: []string{"C11"}, Concurrent: true, Timed: true, MaxSteps: 6000, Run: batchWorld})
+	Register(&World{Name: "batch", Episodes: true, Props: []string{"C11"}, Concurrent: true, Timed: true, MaxSteps: 6000, Run: batchWorld})
 	ExpectedProbes["batch"] = []string{"underfilled-by-timer", "full-batch", "final-partial-batch", "close-with-producer-ahead", "next-cancelled-then-retried", "source-error-after-items", "close-before-any-next", "timer-flush-with-waiter"}
 }
 
